@@ -6,8 +6,72 @@
     application polls, future drops, driver polls with arbitrary event lists, closes, stream calls,
     handle clones and drops. [ok ls] excludes exactly the known class [stopped-after-reset]
     (a driver event [PResetAcked]), for which [C18_no_lost_wakeup_refuted] is the witness. *)
-From QV Require Import Lib.Tac Model.AsyncConn Proofs.AsyncConnInv Proofs.AsyncConnFacts.
+From QV Require Import Lib.Tac Model.AsyncConn Proofs.AsyncConnInv Proofs.AsyncConnFacts Proofs.AsyncConnMain.
 From QV Require Import Model.AsyncEndpoint Proofs.AsyncEndpointProofs.
+
+(** * The inductive invariant holds in every reachable state (all schedules, unbounded) *)
+Theorem C18_invariant : forall ls, ok ls -> Inv (run ls).
+Proof. exact Inv_run. Qed.
+Print Assumptions C18_invariant.
+
+(** * no lost wake-up: a pending operation whose condition holds has a runnable task *)
+Theorem C18_no_lost_wakeup : forall ls, ok ls -> forall t o,
+  pend (run ls) t = Some o -> cond (run ls) o = true -> runnable (run ls) t = true.
+Proof. exact no_lost_wakeup. Qed.
+Print Assumptions C18_no_lost_wakeup.
+
+Theorem C18_driver_no_lost_wakeup : forall ls, ok ls ->
+  driver_alive (run ls) = true -> drv_work (run ls) = true -> drv_runnable (run ls) = true.
+Proof. exact driver_no_lost_wakeup. Qed.
+Print Assumptions C18_driver_no_lost_wakeup.
+
+(** * close wakes everyone: [State::terminate], [Connection::close], [Event::ConnectionLost] *)
+Theorem C18_close_wakes_everyone : forall ls, ok ls -> forall code t o,
+  pend (terminate (run ls) code) t = Some o -> runnable (terminate (run ls) code) t = true.
+Proof. exact close_wakes_everyone. Qed.
+Print Assumptions C18_close_wakes_everyone.
+
+Theorem C18_close_wakes_everyone_AppClose : forall ls, ok ls -> (0 < nhandles (run ls))%Z -> forall t o,
+  pend (step' (run ls) AppClose) t = Some o -> runnable (step' (run ls) AppClose) t = true.
+Proof. exact close_wakes_everyone_AppClose. Qed.
+Print Assumptions C18_close_wakes_everyone_AppClose.
+
+Theorem C18_close_wakes_everyone_PLost : forall ls, ok ls -> driver_alive (run ls) = true -> forall code t o,
+  pend (step' (run ls) (DrvPoll [PLost code])) t = Some o ->
+  runnable (step' (run ls) (DrvPoll [PLost code])) t = true.
+Proof. exact close_wakes_everyone_PLost. Qed.
+Print Assumptions C18_close_wakes_everyone_PLost.
+
+(** * cancellation: nothing received is lost or duplicated, whatever is dropped and when *)
+Theorem C18_cancel_safe_ops_lose_nothing : forall ls, ok ls ->
+  (forall k, discarded (run ls) k = false -> arrived (run ls) k = delivered (run ls) k ++ rx (run ls) k) /\
+  d_arrived (run ls) = d_delivered (run ls) ++ dq (run ls).
+Proof. exact cancel_safe_ops_lose_nothing. Qed.
+Print Assumptions C18_cancel_safe_ops_lose_nothing.
+
+Theorem C18_drop_leaves_no_notify_registration : forall ls t, ok ls ->
+  forall n, nwait (step' (run ls) (AppDrop t)) n t = false.
+Proof. exact drop_leaves_no_notify_registration. Qed.
+Print Assumptions C18_drop_leaves_no_notify_registration.
+
+Theorem C18_drop_then_fresh_poll_same_result : forall s t o n,
+  poll_ok s t o n = true ->
+  snd (step (step' s (AppDrop t)) (AppPoll t o n)) = snd (step s (AppPoll t o n)).
+Proof. exact drop_then_fresh_poll_same_result. Qed.
+Print Assumptions C18_drop_then_fresh_poll_same_result.
+
+(** the [debug_assert!] in [RecvStream::drop] cannot fire *)
+Theorem C18_recv_drop_assert : forall ls k, ok ls ->
+  all_read (run ls) k = true -> aget (br (run ls)) k = None.
+Proof. exact recv_drop_assert. Qed.
+Print Assumptions C18_recv_drop_assert.
+
+(** * reference counting *)
+Theorem C18_refcount_tracks_handles : forall ls, ok ls ->
+  (driver_alive (run ls) = true -> refcnt (run ls) = nhandles (run ls)) /\
+  (driver_alive (run ls) = false -> refcnt (run ls) = (nhandles (run ls) - 1)%Z).
+Proof. exact refcount_tracks_handles. Qed.
+Print Assumptions C18_refcount_tracks_handles.
 
 (** * close wakes everyone (single-step parts; the run-level part is below) *)
 Theorem C18_closed_poll_never_pends : forall s t o n,
